@@ -8,6 +8,9 @@ if [ -n "$(git -C /repo status --porcelain)" ]; then echo "/repo is not clean"; 
 miss=0
 for d in /verif/seeded/$GLOB/; do
   n=$(basename $d); id=${n%%-*}
+  # a change written against one property may belong to another property's subject: seeded/<name>/check names the check to run
+  [ -f $d/check ] && id=$(cat $d/check)
+  if [ -f $d/neutralised ]; then echo "$n: neutralised by a later fix (skipped)"; continue; fi
   if ! git -C /repo apply --check $d/patch.diff 2>/dev/null; then echo "$n: PATCH DOES NOT APPLY"; miss=$((miss+1)); continue; fi
   git -C /repo apply $d/patch.diff
   OUT=$(VERIF_NO_EVIDENCE=1 ./check $id $TIER 2>&1); RC=$?
